@@ -8,6 +8,7 @@ import (
 	"io"
 	"testing"
 
+	"github.com/tink-crypto/tink-go/v2/insecurecleartextkeyset"
 	"github.com/tink-crypto/tink-go/v2/insecuresecretdataaccess"
 	"github.com/tink-crypto/tink-go/v2/key"
 	"github.com/tink-crypto/tink-go/v2/keyset"
@@ -32,7 +33,7 @@ func TestMain(m *testing.M) {
 	core.DeclareProbes("lookahead-carried", "first-offset", "empty-plaintext", "exact-multiple", "write-spans-2-segments",
 		"zero-length-write", "zero-length-read", "read-buffer-smaller-than-segment", "unreader-replay-2nd-key", "unreader-replay-3rd+-key",
 		"error-in-header", "error-in-first-segment", "error-in-last-segment", "error-at-len-ct", "write-after-close", "double-close",
-		"ref-decodes-tink", "tink-decodes-ref", "crash-image-read-back", "keyset-level", "subtle-level", "zero-nil-from-tink-reader")
+		"ref-decodes-tink", "tink-decodes-ref", "crash-image-read-back", "keyset-through-serialization", "write-retried-after-error", "keyset-level", "subtle-level", "zero-nil-from-tink-reader")
 	core.Main(m, prop, "stream", map[string]string{
 		"streamingaead/subtle/noncebased": "real", "streamingaead/subtle aes_gcm_hkdf, aes_ctr_hmac": "real",
 		"streamingaead key types (aesgcmhkdf, aesctrhmac)": "real", "streamingaead factory + decrypt_reader": "real",
@@ -148,7 +149,26 @@ func makeKey(p streamref.Params) (key.Key, error) {
 }
 
 // makeKeyset builds a handle over the given keys with the primary at index prim.
-func makeKeyset(ps []streamref.Params, prim int) (*keyset.Handle, error) {
+func makeKeyset(ps []streamref.Params, prim int, viaStorage string) (*keyset.Handle, error) {
+	h, err := makeKeyset0(ps, prim)
+	if err != nil || viaStorage == "" {
+		return h, err
+	}
+	// the handle as a deployment would obtain it: written out and read back (the key types' serializers and parsers run)
+	var buf bytes.Buffer
+	if viaStorage == "json" {
+		if err := insecurecleartextkeyset.Write(h, keyset.NewJSONWriter(&buf)); err != nil {
+			return nil, err
+		}
+		return insecurecleartextkeyset.Read(keyset.NewJSONReader(&buf))
+	}
+	if err := insecurecleartextkeyset.Write(h, keyset.NewBinaryWriter(&buf)); err != nil {
+		return nil, err
+	}
+	return insecurecleartextkeyset.Read(keyset.NewBinaryReader(&buf))
+}
+
+func makeKeyset0(ps []streamref.Params, prim int) (*keyset.Handle, error) {
 	m := keyset.NewManager()
 	var ids []uint32
 	for _, p := range ps {
@@ -364,6 +384,15 @@ func writeOut(r *core.Run, a tink.StreamingAEAD, pt, aad []byte, chunks []int, f
 		res.acked = append(res.acked, rest[:wn]...)
 		if werr != nil {
 			res.writeErr = werr
+			if afterClose&1 != 0 && wn < n {
+				// the caller retries once on the failing device before giving up; the fault is persistent, so no
+				// outcome of this call is asserted beyond "no panic" — Close below must still not report overall success
+				r.Probe("write-retried-after-error")
+				func() {
+					defer catch(r, "Write-retry")
+					_, _ = w.Write(rest[wn:n])
+				}()
+			}
 			break
 		}
 		if wn != n {
@@ -519,7 +548,11 @@ func runStream(t *rapid.T) {
 				ps[i] = drawKeyCfg(t, false, fmt.Sprintf("k%d.", i+1))
 			}
 		}
-		h, err := makeKeyset(ps, primIdx)
+		via := rapid.SampledFrom([]string{"", "", "binary", "json"}).Draw(t, "keysetVia")
+		if via != "" {
+			r.Probe("keyset-through-serialization")
+		}
+		h, err := makeKeyset(ps, primIdx, via)
 		if err != nil {
 			r.Logf("config refused: %v", err)
 			core.CountGlobal("config-refused")
@@ -807,7 +840,7 @@ func runStream(t *rapid.T) {
 				ps = append(ps, drawKeyCfg(t, false, fmt.Sprintf("o%d.", i)))
 			}
 			var h *keyset.Handle
-			h, err = makeKeyset(ps, 0)
+			h, err = makeKeyset(ps, 0, "")
 			if err == nil {
 				other, err = streamingaead.New(h)
 			}
